@@ -145,12 +145,15 @@ def replay(ctx, st, idx):
                 return ctx.violation(sig + 'iter', 'iteration differs from iterating x and y', case)
             # iterations are independent of each other, as they are for the x and y arrays: two at once (zip of the coordinate with
             # itself, nested loops, two handles advanced alternately) each see every element
-            both = list(zip(p, p))
-            nested = sum(1 for _a in p for _b in p)
-            h1, h2 = iter(p), iter(p)
-            alt = []
-            for _ in range(len(items)):
-                alt.append((next(h1), next(h2)))
+            try:
+                both = list(zip(p, p))
+                nested = sum(1 for _a in p for _b in p)
+                h1, h2 = iter(p), iter(p)
+                alt = []
+                for _ in range(len(items)):
+                    alt.append((next(h1), next(h2)))
+            except (StopIteration, RuntimeError, TypeError, ValueError) as ex:
+                return ctx.violation(sig + 'iter-concurrent', f'two iterations over the same coordinate at once: {ex!r}', case)
             if (len(both) != len(items) or nested != len(items) ** 2
                     or any(not (same(obs(a.x), obs(b.x)) and same(obs(a.y), obs(b.y)) and same(obs(a.x), obs(it.x))) for (a, b), it in zip(both, items))
                     or any(not (same(obs(a.x), obs(it.x)) and same(obs(b.y), obs(it.y))) for (a, b), it in zip(alt, items))):
